@@ -7,6 +7,7 @@ from . import logic
 #   ('bool',) ('num','real'|'int') ('obj',kind) ('str',) ; optional ones as ('opt', kind)
 HEAP_SCHEMA = {
     "triggered": ("bool",),
+    "processed": ("bool",),
     "priority_to_put": ("num", "real"),
     "priority_to_get": ("num", "real"),
     "requesting_process": ("obj", "proc"),
